@@ -104,9 +104,9 @@ def main():
         "version": 1,
         "setup_cmd": "./check setup",
         "hooks": {"guard": "tcss_verif",
-                  "enable": "harness/.cargo/config.toml passes --cfg tcss_verif to every crate it builds from /repo (no hook exists in /repo at present; all instrumentation is external: Storage-trait wrapper, LD_PRELOAD shim, black-box binary)",
+                  "enable": "RUSTFLAGS='--cfg tcss_verif --check-cfg cfg(tcss_verif)' (harness/.cargo/config.toml sets it for every harness build; lib/engines.py:tests_facet sets it for `cargo test --workspace` of /repo with CARGO_TARGET_DIR=/verif/build/hook-target and TCSS_TRACE_DIR). The hook (core/src/verif.rs + guarded blocks in core/src/server.rs) records each protocol operation as a trace event and is inert unless TCSS_TRACE_DIR is set. Everything else is external instrumentation: Storage-trait wrapper, LD_PRELOAD shim, black-box binary.",
                   "baseline_off_cmd": "cd /repo && cargo test --workspace --no-fail-fast --offline",
-                  "source_commits": [], "add_only": True},
+                  "source_commits": ["fa51efb"], "add_only": True},
         "engines": [
             {"name": "SEQ", "path": "lib/engines.py:engine_seq", "serves_properties": sorted(k for k, v in CHECKS.items() if "SEQ" in v["engine"]),
              "kind_free_text": "TLC on spec/SyncProtocol (MC_Seq) + edge emission + tour replay through harness + TLC trace validation (spec/TraceSeq)"},
